@@ -39,6 +39,8 @@ pub fn step(bits: u16, k: KeyCode, s: KeyState) -> u16 {
             KeyState::Down => bits | f,
             KeyState::Up => bits & !f,
             KeyState::SingleShot => bits,
+            #[allow(unreachable_patterns)]
+            _ => bits,
         };
     }
     match (k, s) {
@@ -81,6 +83,8 @@ pub fn expect_output(bits: u16, k: KeyCode, s: KeyState) -> Expect {
                 Expect::ViaLayout
             }
         }
+        #[allow(unreachable_patterns)]
+        _ => Expect::Nothing,
     }
 }
 
